@@ -1,2 +1,184 @@
+"""C20 end-to-end: alias populations rendered as DDP modules, parsed by the real frontend in every
+declaration order; observations validated by AliasDeclTrace (spec/alias/AliasDecl.tla)."""
+import itertools, json, os
+import vlib
+from vlib import Infra, tlc, validate_monitor, FEPool
+
+MOD = """Wir nennen die öffentliche Kombination aus
+	der öffentlichen Zahl x mit Standardwert 1,
+einen Punkt, und erstellen sie so:
+	"ein Punkt%(M)s"
+
+Die öffentliche Funktion zeige_%(m)s mit dem Parameter p vom Typ Punkt, gibt einen Wahrheitswert zurück, macht:
+	Gib wahr zurück.
+Und kann so benutzt werden:
+	"zeige <p>"
+
+Die öffentliche Funktion mache_%(m)s gibt einen Punkt zurück, macht:
+	Gib ein Punkt%(M)s zurück.
+Und kann so benutzt werden:
+	"mache %(M)s"
+"""
+PTYPE = {4: "Zahl", 9: "Nummer", 5: "Text", 6: "Zahlen Referenz", 14: "Byte"}
+ARG_LIT = {4: "1", 9: "1", 5: '"s"', 14: "(1 als Byte)", 7: "(mache A)", 8: "(mache B)"}
+ARG_VAR = {4: "vz", 9: "vz", 6: "vz", 5: "vt", 14: "vb"}
+WORD = {2: "zeige", 3: "mit", 13: "nicht"}
+TRACE_CFG = """SPECIFICATION Spec
+CONSTANTS
+  TraceFile = "trace.ndjson"
+INVARIANTS Report
+POSTCONDITION Accepted
+CHECK_DEADLOCK FALSE
+"""
+
+
+def alias_string(item):
+    # the menu's pats come from one of four templates; reconstruct the written alias
+    pats = item["pats"]
+    if len(pats) == 2:
+        return "zeige <p> <!nicht>"
+    return " ".join("<p>" if k == 0 else WORD[k] for k in pats[0]["key"])
+
+
+def render(seq, menu):
+    """returns (files, decl line ranges [(first,last)], calls [(line, fn, pat, argref)])"""
+    lines = ["Wir nennen eine Zahl auch eine Nummer.", "Die Zahl vz ist 1.", 'Der Text vt ist "s".', "Der Byte vb ist 1 als Byte.", "Der Wahrheitswert w ist wahr.", ""]
+    ranges = []
+    for k, m in enumerate(seq, 1):
+        item = menu[m - 1]
+        first = len(lines) + 1
+        if item["src"] == "local":
+            lines += ["Die Funktion f%d mit dem Parameter p vom Typ %s, gibt einen Wahrheitswert zurück, macht:" % (k, PTYPE[item["par"]]),
+                      "\tGib wahr zurück.", "Und kann so benutzt werden:", '\t"%s"' % alias_string(item)]
+        else:
+            s = item["src"]
+            lines += ['Binde zeige_%s und mache_%s aus "%s" ein.' % (s, s, s)]
+        ranges.append((first, len(lines)))
+        lines.append("")
+    calls = []
+    for k, m in enumerate(seq, 1):
+        item = menu[m - 1]
+        for pi, pat in enumerate(item["pats"], 1):
+            forms = []
+            if item["par"] in ARG_LIT:
+                forms.append((ARG_LIT[item["par"]], False))
+            if item["par"] in ARG_VAR:
+                forms.append((ARG_VAR[item["par"]], True))
+            for arg, isref in forms:
+                txt = " ".join(arg if x == 0 else WORD[x] for x in pat["key"])
+                lines.append("Speichere %s in w." % txt)
+                calls.append((len(lines), k, pi, isref))
+    files = {"main.ddp": "\n".join(lines) + "\n", "a.ddp": MOD % dict(m="a", M="A"), "b.ddp": MOD % dict(m="b", M="B")}
+    return files, ranges, calls
+
+
+def observe(ans, seq, menu, ranges, calls):
+    ev = [dict(e="reset")]
+    if ans.get("killed") is not None or ans.get("timeout") or not ans["runs"]:
+        return ev + [dict(e="crash")], "worker died: %s" % (ans.get("stderr", "")[-300:] if not ans.get("timeout") else "timeout")
+    r = ans["runs"][0]
+    if r.get("panic") or r.get("err"):
+        return ev + [dict(e="crash")], (r.get("panic") or r.get("err"))
+    dupdiag = [False] * len(seq)
+    other = []
+    for d in r["diags"]:
+        if d["lvl"] != "err":
+            continue
+        hit = False
+        for i, (a, b) in enumerate(ranges):
+            if d["file"] == "main.ddp" and a <= d["r"][0] <= b:
+                hit = True
+                if d["code"] in (2007, 2008):
+                    dupdiag[i] = True
+                else:
+                    other.append(d)
+        if not hit and d["r"][0] < (calls[0][0] if calls else 10 ** 9):
+            other.append(d)
+    if other:
+        raise Infra("C20 e2e renderer produced a program with unrelated errors: %s\n%s" % (other[:2], seq))
+    for i, m in enumerate(seq):
+        ev.append(dict(e="decl", item=m, dup=dupdiag[i]))
+    if not any(dupdiag):
+        byline = {}
+        for c in r.get("calls") or []:
+            if c["file"] == "main.ddp" and c["name"] not in ("mache_a", "mache_b"):
+                byline.setdefault(c["pos"][0], []).append(c)
+        errlines = set(d["r"][0] for d in r["diags"] if d["lvl"] == "err")
+        for line, fn, pi, isref in calls:
+            got, neg = 0, False
+            if line not in errlines:
+                for c in byline.get(line, []):
+                    if c["kind"] == "not":
+                        neg = True
+                    else:
+                        nm = c["name"]
+                        if nm.startswith("f") and nm[1:].isdigit():
+                            got = int(nm[1:])
+                        elif nm in ("zeige_a", "zeige_b"):
+                            got = [k for k, m in enumerate(seq, 1) if menu[m - 1]["src"] == nm[-1]][0]
+            ev.append(dict(e="call", fn=fn, pat=pi, argref=isref, got=got, neg=neg))
+    return ev, None
+
+
+def sequences(nmenu, menu, maxlen, tier, rng):
+    imported = [i for i in range(1, nmenu + 1) if menu[i - 1]["src"] != "local"]
+    def ok(s):
+        return all(s.count(i) <= 1 for i in imported)
+    out = []
+    for n in range(1, maxlen + 1):
+        for s in itertools.product(range(1, nmenu + 1), repeat=n):
+            if ok(s):
+                out.append(s)
+    return out
+
+
 def run(ck, tier):
-    pass
+    # menu from the specification
+    r = tlc("AliasDeclTrace", "t.cfg", ["alias"], timeout=120, files={"t.cfg": TRACE_CFG, "trace.ndjson": '{"e":"reset"}\n'})
+    menu = json.load(open(os.path.join(r.workdir, "menu.json")))["menu"]
+    rng = vlib.rng("c20e2e")
+    seqs = sequences(len(menu), menu, 2, tier, rng)
+    # length 3 (quick: seeded sample of 3000; thorough: all), length 4 (thorough: seeded sample)
+    all3 = [s for s in itertools.product(range(1, len(menu) + 1), repeat=3) if all(s.count(i) <= 1 for i in (21, 22))]
+    seqs += all3 if tier == "thorough" else rng.sample(all3, 3000)
+    # always include the population that crashed the pinned compiler, in every order
+    for p in itertools.permutations((17, 21, 22)):
+        if p not in seqs:
+            seqs.append(p)
+    if tier == "thorough":
+        for _ in range(20000):
+            seqs.append(tuple(rng.choice([i for i in range(1, len(menu) + 1)]) for _ in range(4)))
+        seqs = [s for s in seqs if all(s.count(i) <= 1 for i in (21, 22))]
+    pool = FEPool(14)
+    jobs, meta = [], []
+    for s in seqs:
+        files, ranges, calls = render(s, menu)
+        jobs.append(dict(files=files, main="main.ddp", calls=True))
+        meta.append((s, ranges, calls, files))
+    answers = pool.run(jobs)
+    recs, starts, notes = [], [], []
+    for a, (s, ranges, calls, files) in zip(answers, meta):
+        ev, note = observe(a, s, menu, ranges, calls)
+        starts.append(len(recs))
+        notes.append(note)
+        recs += ev
+    res, st = validate_monitor("AliasDeclTrace", "t.cfg", ["alias"], recs, procs=12, sets=("bad",), extra_files={"t.cfg": TRACE_CFG})
+    ck.cov["states"] += st["distinct"]; ck.cov["transitions"] += st["generated"]
+    ck.cov["traces_validated_against_impl"] += len(seqs)
+    ck.cov["evaluations"] += st["lines"]
+    ck.cov["distinct_nontrivial"] += len(set(seqs))
+    ck.cov["tlc_runs"].append(dict(name="AliasDeclTrace", lines=st["lines"], wall_s=round(st["wall"], 1), programs=len(seqs)))
+    import bisect
+    seen = set()
+    for i in res["bad"]:
+        j = bisect.bisect_right(starts, i) - 1
+        s, ranges, calls, files = meta[j]
+        if j in seen:
+            continue
+        seen.add(j)
+        names = ["%s:%s:%s" % (menu[m - 1]["src"], PTYPE.get(menu[m - 1]["par"], "Punkt"), alias_string(menu[m - 1])) for m in s]
+        alike = sum(1 for m in s if m in (21, 22)) == 2
+        key = "C20:e2e:%s:seq=%s:%s" % ("print-alike" if alike else "other", "-".join(map(str, s)), recs[i]["e"])
+        ck.fail(key, "alias population %s: observed %s contradicts AliasDecl (%s)" % (names, recs[i], notes[j] or ""),
+                dict(kind="e2e", seq=list(s), names=names, files=files, event=recs[i], note=notes[j]))
+    ck.sample(dict(e2e_population=[alias_string(menu[m - 1]) + " / " + str(menu[m - 1]["par"]) for m in seqs[-1]], events=recs[starts[-1]:][:8]))
